@@ -1,3 +1,4 @@
+import TeleportModel.Driver.C20
 import TeleportModel.Model.NoPanic
 import TeleportModel.Driver.Loop
 /- Line protocol of C15 (see harness/c15_test.go for the op language). -/
@@ -7,6 +8,9 @@ open TM TM.NoPanic
 structure St where
   x : XSt := {}
   a : ASt := {}
+  /-- rvesting BeginBlocker histories (`bb <op>` lines) run through the C20 model: parameter validation + BeginBlocker
+      are code that executes outside transaction recovery, so C15 drives them too -/
+  bb : TM.Driver.C20.St := TM.Driver.C20.fresh
 
 def fresh : St := {}
 
@@ -233,6 +237,10 @@ def stepO (st : St) (line : String) : Option (St × String) :=
   | _ => none
 
 def step (st : St) (line : String) : St × String :=
+  if line.startsWith "bb " then
+    let (b', o) := TM.Driver.C20.step st.bb (line.drop 3).toString
+    ({ st with bb := b' }, o)
+  else
   match stepO st line with
   | some r => r
   | none => (st, "bad-op")
